@@ -14,6 +14,12 @@
   these generated functions compute, for every list of sizes and every argument, exactly what the
   hand-written model functions compute — by induction over the list with a loop invariant
   (generalised over the index, the running position and the files collected so far).
+
+  Second batch: `get_piece_indexes_of_file` (both values of `exclusive`),
+  `get_absolute_piece_indexes` and `get_relative_piece_indexes` as whole functions (lists of
+  integers, `remove`, `in`, `xs[0]` / `xs[-1]`, a set that is added to and sorted, a loop over a
+  list of integers): `C11_kernel_loop_piece_indexes_of_file*`,
+  `C11_kernel_loop_absolute_piece_indexes`, `C11_kernel_loop_relative_piece_indexes`.
 -/
 import Torf.Generated.Kernels
 import Torf.Model.Geometry
@@ -62,14 +68,18 @@ theorem C11_kernel_absolute (absMin absMax r : Int) :
       absToAbs absMin (absClamp 0 (absRelMax absMax absMin)
         (if r < 0 then absFromEnd (absRelMax absMax absMin) r else r)) := by
   unfold clampRel absToAbs absClamp absRelMax absFromEnd
-  rfl
+  first
+    | rfl
+    | (simp only []; split <;> omega)
 
 /-- the same step in `get_relative_piece_indexes`, with `max_piece_index = floor((size-1)/piece_size)` -/
 theorem C11_kernel_relative (fileSize L : Nat) (r : Int) :
     clampRel (floorDiv ((fileSize : Int) - 1) L) r =
       relClamp 0 (relMax fileSize L) (if r < 0 then relFromEnd (relMax fileSize L) r else r) := by
   unfold clampRel relClamp relMax relFromEnd floorDiv
-  rfl
+  first
+    | rfl
+    | (simp only []; split <;> omega)
 
 
 /-! ### Loop kernels: whole functions translated from the source
@@ -299,6 +309,164 @@ theorem C11_kernel_loop_byte_range_of_file (sizes : List Nat) (j : Nat) (sz : Na
   · rw [List.getElem?_eq_none (by omega)]
     rfl
 
+/-! ### Loop kernels, second batch: lists of integers
+
+`get_piece_indexes_of_file` (both values of `exclusive`), `get_absolute_piece_indexes` and
+`get_relative_piece_indexes` as whole functions: `list(range(a, b + 1))` is `pyRange`, `remove` is
+`List.erase` behind a membership test, `xs[0]` / `xs[-1]` are `getIdx` (IndexError), the set that is
+added to and sorted is `sortedSet` of the added values.  The model mirrors the code including its
+defects (D11a, D11c), so these are equalities for every input. -/
+
+private theorem floorDiv_eq (a : Int) (L : Nat) : floorDiv a L = a / (L : Int) := rfl
+
+private theorem pyRange_succ (a b : Int) : pyRange a (b + 1) = rangeIncl a b := rfl
+
+private theorem sortedSet_eq (xs : List Int) : sortedSet xs = sortDedup xs := by
+  have h : ∀ (x : Int) (l : List Int), insertAsc x l = insertSorted x l := by
+    intro x l
+    induction l with
+    | nil => rfl
+    | cons y ys ih => simp only [insertAsc, insertSorted, ih]
+  induction xs with
+  | nil => rfl
+  | cons x xs ih =>
+    show insertAsc x (sortedSet xs) = insertSorted x (sortDedup xs)
+    rw [ih, h]
+
+private theorem getIdx_zero {α : Type} (xs : List α) : getIdx xs (0 : Int) = xs.head? := by
+  cases xs <;> simp [getIdx]
+
+private theorem getIdx_neg_one {α : Type} (xs : List α) : getIdx xs (-(1 : Int)) = xs.getLast? := by
+  cases xs with
+  | nil => simp [getIdx]
+  | cons x xs =>
+    simp only [getIdx, List.getLast?_eq_getElem?, List.length_cons]
+    rw [if_neg (by omega), if_pos (by simp)]
+    simp
+
+private theorem ofOut_ite {α : Type} (c : Prop) [Decidable c] (a b : Out α) :
+    ofOut (if c then a else b) = if c then ofOut a else ofOut b := by
+  split <;> rfl
+
+private theorem ofOut_ret {α : Type} (v : α) : ofOut (Out.ret v) = .ok v := rfl
+private theorem ofOut_value {α : Type} : ofOut (Out.raised "ValueError" : Out α) = .error .value := rfl
+
+/-- one more value added to the set: the generated loop adds `v`, the model maps the next element to `w` -/
+private theorem sorted_step {acc rest : List Int} {v w : Int} (h : v = w) :
+    (Out.ret (sortedSet ((acc ++ [v]) ++ rest)) : Out (List Int)) = .ret (sortedSet (acc ++ w :: rest)) := by
+  subst h; simp
+
+/-- `get_piece_indexes_of_file(file, exclusive)` for a file object of size `sz` (a listed file: its size in
+    the list): the position through the translated `get_file_position`, the range of pieces, and for
+    `exclusive` the two look-ups through the translated `get_files_at_piece_index`, the comparisons with
+    `[file]`, the membership test and the `remove`s (ValueError when the index is not there: D11a) -/
+theorem C11_kernel_loop_piece_indexes_of_file (sizes : List Nat) (L : Nat) (j : Nat) (sz : Nat) (excl : Bool)
+    (hsz : ∀ h : j < sizes.length, sizes[j] = sz) :
+    ofOut (pieceIndexesOfFileFn (ints sizes) j excl sz L) = getPieceIndexesOfFile sizes L j excl := by
+  unfold pieceIndexesOfFileFn
+  simp only []
+  rw [ofOut_bind, C11_kernel_loop_file_position]
+  unfold getFilePosition getPieceIndexesOfFile lookupFile
+  by_cases hj : j < sizes.length
+  · rw [List.getElem?_eq_getElem hj, hsz hj]
+    simp only [bind, Except.bind, pure, Except.pure, Functor.map, Except.map]
+    repeat rw [floorDiv_eq]
+    rw [← pyRange_succ]
+    cases excl with
+    | false => simp [ofOut]
+    | true =>
+      simp only [ofOut_bind, ofOut_ite, ofOut_ret, ofOut_value, C11_kernel_loop_files_at_piece_index, if_true]
+      generalize getFilesAtPieceIndex sizes L (((sizes.take j).sum : Nat) / (L : Int)) = r1
+      generalize getFilesAtPieceIndex sizes L ((((sizes.take j).sum : Nat) + (sz : Int) - 1) / (L : Int)) = r2
+      generalize pyRange (((sizes.take j).sum : Nat) / (L : Int)) ((((sizes.take j).sum : Nat) + (sz : Int) - 1) / (L : Int) + 1) = idxs
+      generalize (((sizes.take j).sum : Nat) / (L : Int) : Int) = a
+      generalize ((((sizes.take j).sum : Nat) + (sz : Int) - 1) / (L : Int) : Int) = b
+      cases r1 <;> cases r2 <;> simp only [bind, Except.bind, listRemove] <;> (repeat' split) <;> simp_all
+  · rw [List.getElem?_eq_none (by omega)]
+    rfl
+
+theorem C11_kernel_loop_piece_indexes_of_file_all (sizes : List Nat) (L : Nat) (j : Nat) (sz : Nat)
+    (hsz : ∀ h : j < sizes.length, sizes[j] = sz) :
+    ofOut (pieceIndexesOfFileFn (ints sizes) j false sz L) = getPieceIndexesOfFile sizes L j false :=
+  C11_kernel_loop_piece_indexes_of_file sizes L j sz false hsz
+
+theorem C11_kernel_loop_piece_indexes_of_file_exclusive (sizes : List Nat) (L : Nat) (j : Nat) (sz : Nat)
+    (hsz : ∀ h : j < sizes.length, sizes[j] = sz) :
+    ofOut (pieceIndexesOfFileFn (ints sizes) j true sz L) = getPieceIndexesOfFile sizes L j true :=
+  C11_kernel_loop_piece_indexes_of_file sizes L j sz true hsz
+
+/-- the value one iteration adds, in both functions: the generated text (after its `if`s are split) against
+    the model's `clampRel` -/
+local macro "clamp_arith" : tactic =>
+  `(tactic| (unfold clampRel
+             simp only []
+             repeat' split
+             all_goals loop_arith))
+
+/-- loop invariant of `get_relative_piece_indexes`: with `acc` added so far, the loop returns the sorted set of
+    `acc` and the clamped rest -/
+private theorem relative_inv (rels0 : List Int) (sz L lo mx mx' : Int) (h0 : lo = 0) (hm : mx = mx') :
+    ∀ (rest acc : List Int),
+      relativePieceIndexesFn.loop sz mx lo L rels0 rest acc =
+        .ret (sortedSet (acc ++ rest.map (fun r => clampRel mx' r)))
+  | [], acc => by simp [relativePieceIndexesFn.loop]
+  | r :: rest, acc => by
+    simp only [relativePieceIndexesFn.loop, List.map_cons]
+    repeat' split
+    all_goals
+      rw [relative_inv rels0 sz L lo mx mx' h0 hm rest]
+      refine sorted_step ?_
+      clamp_arith
+
+/-- `get_relative_piece_indexes` as written in the source = the model (which mirrors it: `file.size` only, the
+    file is never looked up; zero-length files give `max_piece_index = -1`, D11c) -/
+theorem C11_kernel_loop_relative_piece_indexes (sizes : List Int) (L fileSize : Nat) (rels : List Int) :
+    relativePieceIndexesFn sizes rels fileSize L = .ret (getRelativePieceIndexes L fileSize rels) := by
+  unfold relativePieceIndexesFn getRelativePieceIndexes
+  simp only []
+  rw [relative_inv _ _ _ _ _ (floorDiv ((fileSize : Int) - 1) L) (by first | rfl | omega)
+    (by first | rfl | (unfold floorDiv; congr 1; omega))]
+  simp [sortedSet_eq]
+
+/-- loop invariant of `get_absolute_piece_indexes` -/
+private theorem absolute_inv (file : Nat) (rels0 : List Int) (sz L : Int) (fpi : List Int)
+    (amin amax lo mx amin' mx' : Int) (h0 : lo = 0) (ha : amin = amin') (hm : mx = mx') :
+    ∀ (rest acc : List Int),
+      absolutePieceIndexesFn.loop file fpi sz amax amin mx lo L rels0 rest acc =
+        .ret (sortedSet (acc ++ rest.map (fun r => amin' + clampRel mx' r)))
+  | [], acc => by simp [absolutePieceIndexesFn.loop]
+  | r :: rest, acc => by
+    simp only [absolutePieceIndexesFn.loop, List.map_cons]
+    repeat' split
+    all_goals
+      rw [absolute_inv file rels0 sz L fpi amin amax lo mx amin' mx' h0 ha hm rest]
+      refine sorted_step ?_
+      clamp_arith
+
+/-- `get_absolute_piece_indexes` as written in the source = the model: the pieces of the file through the
+    translated `get_piece_indexes_of_file` (its `exclusive` left to the default written in the signature), the
+    first and the last of them (IndexError if there is none), and the loop over the relative indexes -/
+theorem C11_kernel_loop_absolute_piece_indexes (sizes : List Nat) (L : Nat) (j : Nat) (sz : Nat) (rels : List Int)
+    (hsz : ∀ h : j < sizes.length, sizes[j] = sz) :
+    ofOut (absolutePieceIndexesFn (ints sizes) j rels sz L) = getAbsolutePieceIndexes sizes L j rels := by
+  unfold absolutePieceIndexesFn getAbsolutePieceIndexes
+  rw [ofOut_bind, C11_kernel_loop_piece_indexes_of_file sizes L j sz false hsz]
+  cases getPieceIndexesOfFile sizes L j false with
+  | error e => rfl
+  | ok fpi =>
+    simp only [bind, Except.bind, getIdx_zero, getIdx_neg_one]
+    cases fpi with
+    | nil => simp [ofOut, Out.bind]
+    | cons x xs =>
+      simp only [List.head?_cons, Out.ofOption_some, Out.bind_ret]
+      cases hl : (x :: xs).getLast? with
+      | none => simp at hl
+      | some y =>
+        simp only [Out.ofOption_some, Out.bind_ret]
+        rw [absolute_inv _ _ _ _ _ _ _ _ _ x (y - x) (by first | rfl | omega) (by first | rfl | omega)
+          (by first | rfl | omega)]
+        simp [ofOut, sortedSet_eq, pure, Except.pure]
+
 /-! the translated source meets the arithmetic definition (composition with `C11_*_spec`) -/
 
 theorem C11_kernel_loop_file_at_position_meets_spec (sizes : List Nat) (p : Int) :
@@ -323,5 +491,13 @@ example :
     filePositionFn [3, 2, 4] 2 = .ret 5 ∧ filePositionFn [3, 2, 4] 3 = .raised "ValueError" ∧
     filesAtPieceIndexFn [3, 2, 4] 1 4 = .ret [1, 2] ∧ filesAtPieceIndexFn [3, 2, 4] 3 4 = .raised "ValueError" ∧
     byteRangeOfFileFn [3, 2, 4] 1 2 = .ret (3, 4) := by decide
+example :
+    pieceIndexesOfFileFn [3, 2, 4] 2 false 4 2 = .ret [2, 3, 4] ∧ pieceIndexesOfFileFn [3, 2, 4] 2 true 4 2 = .ret [3, 4] ∧
+    pieceIndexesOfFileFn [3, 2, 4] 1 true 2 2 = .ret [] ∧ pieceIndexesOfFileFn [1, 0] 1 true 0 1 = .ret [] ∧ pieceIndexesOfFileFn [2, 0, 2] 0 true 2 2 = .ret [] ∧
+    pieceIndexesOfFileFn [3, 2, 4] 3 false 1 2 = .raised "ValueError" ∧
+    absolutePieceIndexesFn [3, 2, 4] 2 [0, -1, 7, -9, 1] 4 2 = .ret [2, 3, 4] ∧
+    absolutePieceIndexesFn [0] 0 [0] 0 2 = .raised "IndexError" ∧
+    relativePieceIndexesFn [] [0, -1, 7, -9, 1] 5 2 = .ret [0, 1, 2] ∧
+    relativePieceIndexesFn [] [0, 3] 0 2 = .ret [0] := by decide
 
 end Torf.C11
